@@ -249,7 +249,7 @@ def run_shard(spec, ctx):
             return v.value, v.weight
         return v, None
 
-    def compare(label, family, a, b, exact, case, real_visits=None):
+    def compare(label, family, a, b, exact, case, real_visits=None, extra_atol=0.0):
         """a: base, b: twin. exact -> bit identity (where weight>0 for weighted values / on real visits for `model`)."""
         va, wa = tensors_of(a)
         vb, wb = tensors_of(b)
@@ -281,12 +281,33 @@ def run_shard(spec, ctx):
         if exact:
             ok = sh.same(va, vb, rtol=0.0)
         else:
-            ok = sh.same(va, vb, rtol=5e-6, atol=1e-7)
+            ok = sh.same(va, vb, rtol=5e-6, atol=1e-7 + extra_atol)
         if not ok:
             nonfin = bool((~torch.isfinite(vb.double())).any() and torch.isfinite(va.double()).all())
             return _bad(label, family, "non-finite value appears only with the twin" if nonfin else "value differs between dataset and twin", case,
                         base=va.flatten()[:6].tolist(), twin=vb.flatten()[:6].tolist())
         return True
+
+    def _attach_magnitude(st, names):
+        """Sum over the observed entries of the magnitudes of the terms that make up the attachment (Gaussian: |log sigma| + log(2 pi)/2 + r^2 / 2 sigma^2);
+        other observation models: sum of the magnitudes of the individuals' terms."""
+        try:
+            if "noise_std" in names and "y" in names and "model" in names:
+                yv, yw = tensors_of(st["y"])
+                mv, _ = tensors_of(st["model"])
+                sig = st["noise_std"].double().reshape(-1)
+                sig = sig if sig.numel() == yv.shape[-1] else sig.expand(yv.shape[-1])
+                obs = (yw != 0) if yw is not None else torch.ones_like(yv, dtype=torch.bool)
+                r2 = torch.where(obs, ((yv.double() - mv.double()) / sig) ** 2, torch.zeros((), dtype=torch.float64))
+                per = torch.where(obs, sig.log().abs() + 0.9189385 + 0.5 * r2, torch.zeros((), dtype=torch.float64))
+                tot = float(per.sum())
+                return tot if np.isfinite(tot) else 0.0
+            if "nll_attach_ind" in names:
+                tot = float(tensors_of(st["nll_attach_ind"])[0].double().abs().sum())
+                return tot if np.isfinite(tot) else 0.0
+        except Exception:
+            ctx.count("attach_magnitude_not_measurable")
+        return 0.0
 
     def _bad(label, family, why, case, **obs):
         key = f"masked/{family}/{case['twin']}"
@@ -361,16 +382,21 @@ def run_shard(spec, ctx):
                 base_cache["state"] = sa
                 sb = state_for(tw)
                 names = set(sa.dag.sorted_variables_names)
+                # a widened table changes the order in which float32 sums run: totals of terms of both signs (log sigma < 0, residuals > 0) may
+                # cancel, so their rounding is measured against the sum of the magnitudes of the entries' terms, not against the total
+                tot_atol = 0.0 if exact else 32 * 6e-8 * _attach_magnitude(sa, names)
                 for node in ("nll_attach_ind", "nll_attach", "nll_attach_y_ind", "n_obs", "n_obs_per_ft", "y_L2", "y_L2_per_ft", "model"):
                     if node in names:
-                        ok &= bool(compare(f"state['{node}']", "state_terms", sa[node], sb[node], exact, case, real_visits=real_vis if node == "model" else None))
+                        ok &= bool(compare(f"state['{node}']", "state_terms", sa[node], sb[node], exact, case, real_visits=real_vis if node == "model" else None,
+                                           extra_atol=tot_atol if node.startswith("nll_attach") else 0.0))
                 # sufficient statistics + one M-step on clones
                 ca, cb = sa.clone(), sb.clone()
                 with ca.auto_fork(None), cb.auto_fork(None):
                     Sa, Sb = model.compute_sufficient_statistics(ca), model.compute_sufficient_statistics(cb)
                     for kname in Sa:
                         ok &= bool(compare(f"statistic '{kname}'", "suffstats", Sa[kname], Sb[kname], exact, case,
-                                           real_visits=real_vis if kname in ("model_x_model",) else None))
+                                           real_visits=real_vis if kname in ("model_x_model",) else None,
+                                           extra_atol=tot_atol if kname in ("nll_attach", "nll_tot") else 0.0))
                     try:
                         model.update_parameters(ca, Sa, burn_in=True)
                         model.update_parameters(cb, Sb, burn_in=True)
